@@ -7,6 +7,9 @@ from bcverif.props.c06 import cds_blocks, mk_tx
 from bcverif.runner import pmap, setup_repo_import
 
 BIN = 1 << 17
+IDENT_ATTRS = {"gene": ("gene_id", "gene_symbol", "locus_tag"),
+               "feature": ("feature_collection_id", "feature_collection_name", "locus_tag"),
+               "variant": ("variant_collection_id", "variant_collection_name")}
 
 
 def _build(rnd, big, with_seq, on_chunk):
@@ -124,7 +127,8 @@ def _project(coll, ids, has_seq):
                     # must not be computed by the code under test)
                     any(getattr(c, "cds", None) is not None for c in m.iter_children()) if kind == "gene" else False,
                     sorted(ch),
-                    sorted(str(x) for x in m.identifiers)])
+                    # the documented identifiers of a member, from the attributes it was built with
+                    sorted(str(getattr(m, a)) for a in IDENT_ATTRS[kind] if getattr(m, a, None) is not None)])
     return [coll.start, coll.end, mem, has_seq]
 
 
@@ -179,7 +183,7 @@ def _events(args):
                       "featguids": "query_by_feature_interval_guids"}[op]
                 call = lambda: getattr(cur, fn)([c.guid for c in kids])  # noqa
             else:
-                pool = sorted({str(x) for m in allm for x in m.identifiers if isinstance(x, str)} | {"nosuch"})
+                pool = sorted({i for pm in pre[2] for i in pm[6]} | {"nosuch"})
                 ar = rnd.sample(pool, min(len(pool), rnd.randrange(1, 5)))
                 op = "idents"
                 call = lambda: cur.query_by_feature_identifiers(ar)  # noqa
